@@ -9,7 +9,7 @@ CHECKS = {
  "C01": ("exploration", PBT + ": generated contents x input kinds x offsets x store algorithms x interposed histories; round-trip + independent hashlib oracle",
          "Generated-input search with a round-trip / independent-digest oracle over the product the property quantifies over; finds counterexamples, does not prove absence.",
          "Trusts hashlib and the local file system; contents bounded at 5 read buffers + 1 byte; histories of <= 10 interposed calls.", "4 C01"),
- "C02": ("exploration", PBT + ": generated call histories on one store directory (two instances) x 12 algorithms x spelling grammar; independent hashlib + name normaliser oracle, every question re-asked at the end",
+ "C02": ("exploration", PBT + ": generated call histories on one store directory (two instances) x 12 algorithms x spelling grammar; independent hashlib + name normaliser oracle, every question re-asked at the end; enumerated fault sites (one-off and late = effect-then-error) of stores that name extra algorithms: a reported success carries exactly that call's key set",
          "Generated histories judged by an independent digest oracle after every call; exploration only.",
          "Trusts hashlib; store_object without pid is not given algorithm arguments; checksums supplied are correct (C06 owns wrong ones).", "4 C02"),
  "C03": ("exploration", PBT + ": model-based generated histories biased to re-binding; observational binding tracker; state-frozen-across-rejection invariant",
@@ -22,34 +22,34 @@ CHECKS = {
          "The reference model is written from the property / README / docstrings (section 2.1); single thread; valid arguments.", "4 C05"),
  "C06": ("exploration", PBT + ": generated (content, algorithm, spelling, checksum form, size form, prior state, entry point); verdict recomputed independently",
          "Generated-input search against an independently computed verdict.", "ObjectMetadata passed to delete_if_invalid_object is the one the store returned.", "4 C06"),
- "C07": ("exploration", PBT + " over owned thread schedules: generated/enumerated 2-3 call programs x every single (quick) / double (thorough) preemption at file-system and lock boundaries, conflict-directed enumeration (<=3 preemptions up to commutation of independent steps, thorough), constructed 3-thread shapes (holder/waiter/passer-by, holder/second/third, hand-over), two store instances on one shared reference list; implementation-relative linearizability oracle",
+ "C07": ("exploration", PBT + " over owned thread schedules: generated/enumerated 2-3 call programs x every single (quick) / double (thorough) preemption at file-system and lock boundaries, conflict-directed enumeration (<=3 preemptions up to commutation of independent steps, thorough), constructed 3-thread shapes (holder/waiter/passer-by, holder/second/third, hand-over), two store instances on one shared reference list, references whose object was never uploaded; implementation-relative linearizability oracle",
          "Systematic schedule exploration with an owned cooperative scheduler (every preemption point of every conflicting pair, bounded by preemption count; conflict-directed reduction for the deeper bound) plus generated 3-thread schedules; the oracle is the set of outcomes of all sequential orders on copies of the start state.",
          "Schedules are explored at file-system-call / lock-operation granularity with sequentially consistent steps; <=3 threads, <=2 preemptions exhaustively (<=3 conflict-directed); waits with a timeout are modelled as expiring; known findings are excluded by signature.", "4 C07"),
- "C08": ("exploration", PBT + " over owned schedules and injected faults (one-off, persistent, disk-full, late = effect-then-error): structural deadlock detection, lock-list emptiness, follow-up calls; constructed 4-thread shapes (two holders + two waiters, wake chain)",
+ "C08": ("exploration", PBT + " over owned schedules and injected faults (one-off, persistent, disk-full, late = effect-then-error): structural deadlock detection, lock-list emptiness, follow-up calls; constructed 4-thread shapes (two holders + two waiters, wake chain); a step bound turns a call that spins for ever into a verdict (sleeps of the code under test are virtual)",
          "Same executions as C07/C12 (+4-thread generated programs) and every fault site of C13, judged by: no execution ends with a blocked thread, no identifier left locked, follow-up calls complete.",
          "Liveness is decided as a safety statement over owned schedules (no explored execution ends blocked); unbounded unfair schedules are out of reach.", "4 C08"),
- "C09": ("fault_enumeration", PBT + ": every file-system boundary of generated calls is an observation point (what a concurrent reader or a post-crash inspector sees); per-address absent<->complete state machine",
+ "C09": ("fault_enumeration", PBT + ": every file-system boundary of generated calls is an observation point (what a concurrent reader or a post-crash inspector sees); per-address absent<->complete state machine; enumerated removals / replacements of 64 MiB files",
          "For each generated call every boundary between two file-system operations (incl. write/flush/close of files opened for writing) is enumerated and the store is inspected there.",
          "Process death loses only user-space buffers (POSIX local fs); observation happens between Python-level file-system operations.", "4 C09"),
- "C10": ("fault_enumeration", PBT + ": every crash point (fork + os._exit before boundary k) of generated scenarios; recovery oracle on a fresh instance",
+ "C10": ("fault_enumeration", PBT + ": every crash point (fork + os._exit before boundary k) of generated scenarios; recovery oracle on a fresh instance, also next to a third party that stored the same content after the crash; enumerated reference lists of exactly 64 KiB / 1 MiB",
          "Crash points of each generated scenario are enumerated completely; the child dies with os._exit (no finally/atexit, unflushed buffers lost); a fresh instance must satisfy the recovery oracle.",
          "Process death on a POSIX local file system (rename atomic, page cache coherent); power loss / fsync ordering out of scope.", "4 C10"),
  "C11": ("exploration", PBT + ": generated metadata histories over colliding (pid, format) pairs and equal-length documents; map model + tree equality via independent path computation",
          "Stateful generated histories against a document-map model after every call.", "Single thread; format ids non-empty without whitespace.", "4 C11"),
- "C12": ("exploration", PBT + " over owned thread schedules of metadata calls (<=2 preemptions exhaustive in quick); linearizability oracle with the reader widening stated in the property; calls on different documents through one and two instances must commute",
+ "C12": ("exploration", PBT + " over owned thread schedules of metadata calls (<=2 preemptions exhaustive in quick); linearizability oracle with the reader widening stated in the property; calls on different documents through one and two instances must commute; sequenced calls per caller (program order kept by the sequential specification) under both directory-listing orders",
          "Systematic schedule exploration of 2-3 call metadata programs on one pid; oracle = sequential permutations on copies.",
          "As C07; a reader may additionally see any not-found error.", "4 C12"),
  "C13": ("fault_enumeration", PBT + ": every fault site (mutating op / open) x errno x {one-off, sticky} of generated scenarios, plus a faulted call next to a concurrent clean call (fault site x conflict-directed single preemption); raise-or-whole-effect, retry and bystander oracles",
          "Fault sites of each generated scenario are enumerated completely with EIO (quick) / EIO, ENOSPC, EACCES (thorough), one-off and persistent-for-destination.",
          "Faults are injected at the Python/OS boundary as OSError; stat-class probes are not sites (as the property states).", "4 C13"),
- "C14": ("exploration", PBT + ": generated (creation cfg, reopen cfg) near-miss pairs x encodings x key sets x path states; accept <=> equal, refused => parent-directory snapshot identical",
+ "C14": ("exploration", PBT + ": generated (creation cfg, reopen cfg) near-miss pairs x encodings x key sets x path states; properties in any key order, hashstore.yaml re-dumped / with a lost tail; accept <=> equal, refused => parent-directory snapshot identical, accepted => nothing written and accepted again by a cold process",
          "Generated configuration pairs with an exact acceptance oracle and byte-for-byte snapshots.", "Parent directory private to the case.", "4 C14"),
  "C15": ("exploration", PBT + ": two generated configurations in one process x adversarial ids; independent implementation of the README layout predicts the complete tree",
          "Differential test against an independent implementation of the published layout; exact tree equality.", "Layout as documented in README / hashstore.yaml comments.", "4 C15"),
  "C16": ("exploration", PBT + ": mode differential on generated histories, owned schedules through the multiprocessing code paths (scheduler shims for multiprocessing.Lock/Condition/Manager().list), and real forked workers with generated delay plans",
          "Three generated searches: threading-vs-multiprocessing differential, owned schedules over the _mp branches, real fork()ed workers contending on shared identifiers judged by linearizability.",
          "Real inter-process schedules are perturbed, not owned; the owned-schedule part replaces the primitives by shims.", "4 C16"),
- "C17": ("exploration", PBT + ": grammar of invalid invocations of every public method (1-2 bad parameters) + successful reads, on empty and generated populated stores; documented error class + byte-for-byte snapshot",
+ "C17": ("exploration", PBT + ": grammar of invalid invocations of every public method (1-2 bad parameters) + successful reads, on empty and generated populated stores, also with the partial reference states a crash leaves; documented error class + byte-for-byte snapshot",
          "Grammar-based generation with a snapshot oracle.", "Only whitespace-only format ids are documented as rejected; other odd format ids are conditional.", "4 C17"),
  "C18": ("exploration", PBT + ": relation-aware adversarial identifier generator (prefix/suffix/case/NFC-NFD/path material/5000 chars) x histories; observational bystander oracle + containment",
          "Generated related-identifier triples; every bystander's view and files compared around every call; containment of all files in hash-derived locations.",
